@@ -220,6 +220,37 @@ def check_matcher_lookup(ctx):
             ctx.check('R-MASK/cache', f, '%s: %s' % (nm, e[:40]), ok,
                       '`%s = %s`: the tokenized value must be the cache entry of this row\'s own key or '
                       'tokenizer.tokenize of this row\'s own value' % (nm, e), d, sample=e)
+    # the values are tokenized exactly when a tokenizer was given: on every path from the function entry to the call of
+    # the similarity function the arguments are tokens (tokenize(..) / a cache entry) iff `tokenizer is not None` held
+    from ..paths import enumerate_paths, symexec
+    cfg = view.cfg
+    node = cfg.node_of(view.stmt_of(simcalls[0]))
+    bad = None
+    seen = {True: 0, False: 0}
+    for pth in enumerate_paths(cfg, cfg.entry.id, {node.id}, stop={node.id}, limit=20000):
+        ps = symexec(pth)
+        if any(isinstance(e, ast.Constant) and bool(e.value) != pol for e, pol, _ in ps.conds):
+            continue        # infeasible: a flag set earlier on this path contradicts the branch taken
+        has_tok = None
+        for e, pol, _ in ps.conds:
+            t = U(e)
+            if t == 'tokenizer is not None':
+                has_tok = pol
+            elif t == 'tokenizer is None':
+                has_tok = not pol
+            elif t == 'tokenizer':
+                has_tok = pol
+        if has_tok is None:
+            continue
+        seen[has_tok] += 1
+        for a in simcalls[0].args:
+            val = ps.env.get(a.id)
+            tokd = val is not None and ('.tokenize(' in U(val) or '_tokens[' in U(val))
+            if tokd != has_tok and bad is None:
+                bad = 'with%s a tokenizer the similarity function receives `%s`' % ('' if has_tok else 'out', U(val)[:60] if val is not None else a.id)
+    ctx.check('R-MASK/tokenize', f, 'tokenized iff a tokenizer is given', bad is None and seen[True] > 0 and seen[False] > 0,
+              'the values handed to the similarity function must be token collections exactly when a tokenizer was given: %s' % bad,
+              simcalls[0], sample='%d paths with, %d without a tokenizer' % (seen[True], seen[False]))
     # generate_tokens
     g = repo.fn(MATCHER, 'generate_tokens')
     tb, ka, ja, tk = g.params[:4]
